@@ -3,7 +3,7 @@
 Specification: spec/Faults.tla (the rule + what the engine must be shown), spec/MC_Faults.tla (exhaustive
 path machine), spec/FaultsTrace.tla (validation of recorded runs). Binding: harness/cmd/faults runs every
 step of real chains (harness/chain; all forks) under every single fault - sticky cancellation from the
-k-th context poll for every k, every engine call x {invalid, error} - and TLC decides every run.
+k-th context poll for every k, every engine call x {invalid, error with false, error with true} - and TLC decides every run.
 """
 import collections
 import json
@@ -31,7 +31,7 @@ def model_check():
         raise lib.InfraError("MC_Faults did not pass (specification problem, not a verdict):\n" + res.out[-4000:])
     base = open(os.path.join(wd, "MC_Faults.cfg")).read()
     devs = {}
-    for dev in ("Dev_SwallowLast", "Dev_InvalidIsValid", "Dev_ErrorIgnored", "Dev_EarlySuccess", "Sticky"):
+    for dev in ("Dev_SwallowLast", "Dev_InvalidIsValid", "Dev_ErrorIgnored", "Dev_ErrorOnlyWhenNotOk", "Dev_EarlySuccess", "Sticky"):
         cfg = base.replace("%s = FALSE" % dev, "%s = TRUE" % dev) if dev != "Sticky" else \
             base.replace("Sticky = TRUE", "Sticky = FALSE")
         open(os.path.join(wd, "dev.cfg"), "w").write(cfg)
@@ -179,8 +179,8 @@ def run_check(tier, seed, replay=None):
 
     if not replay:
         # vacuity guards
-        need_runs = ["IsValidBlockHash:invalid", "IsValidBlockHash:error", "NotifyNewPayload:invalid",
-                     "NotifyNewPayload:error", "IsValidVersionedHashes:invalid", "IsValidVersionedHashes:error"]
+        need_runs = ["%s:%s" % (m, v) for m in ("IsValidBlockHash", "NotifyNewPayload", "IsValidVersionedHashes")
+                     for v in ("invalid", "error", "errortrue")]
         missing = [k for k in need_runs if eng_runs[k] == 0]
         for fork in ("bellatrix", "capella", "deneb"):
             for m in ("IsValidBlockHash", "NotifyNewPayload"):
@@ -220,7 +220,7 @@ def run_check(tier, seed, replay=None):
                "bound": "all paths with <= 6 polls and <= 3 engine calls under every fault (sticky, sloppy transition)",
                "deviation_switches_violate": devs},
         "exhaustive": False,
-        "exhaustive_part": "every context poll of every explored step as first cancelled poll; every engine call x {invalid, error}",
+        "exhaustive_part": "every context poll of every explored step as first cancelled poll; every engine call x {invalid, (false, err), (true, err)}",
         "known_findings_seen": dict(known),
     }
     if not replay:   # a replay must not replace the evidence of a tier run
